@@ -139,8 +139,10 @@ def execute(scenario, seed, overrides=None):
                     reg.register(e["svc"])
                     st["t_ready"] = max(st["t_ready"] or 0, e["t_done"] + 0.9)
 
-        def classify(rel, t_now_ref, cache):
-            """Fill rel.expect from the assembled packets, mirroring RFC 6762 classes as the property states them."""
+        def classify(rel, t_now_ref, cache, seen_then=None):
+            """Fill rel.expect from the assembled packets, mirroring RFC 6762 classes as the property states them.
+            seen_then: the sightings as they were at the beginning of a release interval (log, library), judged at the
+            end of it - what was multicast inside the interval may be this very answer."""
             pk = rel.packets
             probe = any(m.authorities for (_, m) in pk)
             known = {}
@@ -165,6 +167,8 @@ def execute(scenario, seed, overrides=None):
                         e = cache.e.get(r.ident())
                         seen_lib = e.created if e is not None else None
                         seen_log = st["sight"].get(r.ident())
+                        if seen_then is not None:
+                            seen_log, seen_lib = seen_then[0].get(r.ident()), seen_then[1].get(r.ident())
                         for table, seen in ((rel.expect, seen_log), (rel.expect_lib, seen_lib)):
                             if q.qu and not rel.legacy:
                                 cls, lo, hi = "qu", rel.t_lo, rel.t_hi
@@ -177,7 +181,7 @@ def execute(scenario, seed, overrides=None):
                             else:
                                 cls, lo, hi = "agg", rel.t_lo + 0.02, rel.t_hi + 0.5
                             table.setdefault(r.ident(), []).append((r, cls, lo, hi, optional))
-                        if not (q.qu and not rel.legacy) and not probe and \
+                        if seen_then is None and not (q.qu and not rel.legacy) and not probe and \
                                 (seen_log is not None and t_now_ref - seen_log < 1000.0) != \
                                 (seen_lib is not None and t_now_ref - seen_lib < 1000.0):
                             st["causes"].add(sighting_cause(cache, st["sight"], st["flush_marks"], r,
@@ -238,6 +242,7 @@ def execute(scenario, seed, overrides=None):
                 d["last"] = t
                 d["legacy"] = legacy
                 d["relA"] = None
+                d.pop("seenA", None)
                 # the hold timer fires between 400 and 500 ms after the last packet: classify at both ends
                 w.loop.call_at(t + 0.4, timer_probe, key, t, "A")
                 w.loop.call_at(t + 0.5 + 2e-6, timer_probe, key, t, "B")
@@ -282,6 +287,17 @@ def execute(scenario, seed, overrides=None):
                 # before THAT instant is protected (the reply is timed from the release as well, repair D10); judged at
                 # the instant this is evaluated, which lies inside the release interval (fourth audit, D69)
                 classify(r, min(max(w.now, last + 0.4), last + 0.5) * 1000.0, st["hm"].cache)
+                if "seenA" not in d:
+                    d["seenA"] = (dict(st["sight"]), {i: e.created for i, e in st["hm"].cache.e.items()})
+                elif s0 == d["starts"][0]:
+                    # at the end of the release interval: what was multicast inside the interval may be this very
+                    # answer - the view with the sightings as they were at its beginning is possible as well
+                    r2 = Release(last + 0.4, last + 0.5, [(a, b) for (a, b, c) in pk], key[1], key[0], d["legacy"])
+                    classify(r2, min(max(w.now, last + 0.4), last + 0.5) * 1000.0, st["hm"].cache, d["seenA"])
+                    for tb in ("expect", "expect_lib"):
+                        for ident, alts in getattr(r2, tb).items():
+                            have = getattr(r, tb).setdefault(ident, [])
+                            have.extend(x for x in alts if (x[1], x[2], x[3]) not in {(y[1], y[2], y[3]) for y in have})
                 r.ambiguous = len(d["starts"]) > 1
                 rels.append(r)
             rel = rels[0]
